@@ -94,19 +94,6 @@ theorem grpc_subtype_not_processed_counterexample (cd : Codec) :
 
 /-! ## the `grpc-encoding` scan over the ordered field list -/
 
-theorem scanEncoding_append (e : Enc) (xs ys : List Header) :
-    scanEncoding e (xs ++ ys) =
-      if (scanEncoding e xs).2 then scanEncoding (scanEncoding e xs).1 ys else scanEncoding e xs := by
-  induction xs generalizing e with
-  | nil => simp [scanEncoding]
-  | cons h xs ih =>
-    obtain ⟨n, v⟩ := h
-    by_cases hn : n = geName
-    · cases hv : encOfName v with
-      | none => simp [scanEncoding, hn, hv]
-      | some e' => simp [scanEncoding, hn, hv, ih]
-    · simp [scanEncoding, hn, ih]
-
 /-- fields with another name are skipped (also `grpc-accept-encoding`, `content-encoding`) -/
 theorem scan_skips_other_fields (e : Enc) (hs : List Header) (h : ∀ x ∈ hs, x.1 ≠ geName) :
     scanEncoding e hs = (e, true) := by
@@ -208,7 +195,7 @@ theorem header_order_independent (s : Stream) (d : Dir) (hs hs' : List Header) (
     cases hsc : scanEncoding (s.get d).enc (encFields hs') with
     | mk e ok => cases ok <;> simp
 
-theorem encFields_move_ct (pre post : List Header) :
+private theorem encFields_move_ct (pre post : List Header) :
     encFields (pre ++ grpcCT :: post) = encFields (grpcCT :: (pre ++ post)) := by
   have : ¬ (grpcCT.1 = geName) := ctName_ne_geName
   simp [encFields, this]
